@@ -73,7 +73,7 @@ fn main() {
     }));
     if let Err(p) = run {
         let msg = if let Some(s) = p.downcast_ref::<&str>() { s.to_string() } else if let Some(s) = p.downcast_ref::<String>() { s.clone() } else { "panic".to_string() };
-        t.emit("driver/panic", "driver.unguarded-panic", serde_json::json!({"prop": "C20", "outcome": "panic", "detail": msg.chars().take(200).collect::<String>()}));
+        t.emit("driver/panic", "driver.unguarded-panic", serde_json::json!({"prop": "C20", "outcome": "panic", "fault": "driver", "len": 0, "detail": msg.chars().take(200).collect::<String>()}));
     }
     t.flush();
     eprintln!("gmverif: suite {} tier {} seed {}: {} events", suite, tier, seed, t.count);
